@@ -175,7 +175,9 @@ func c07E3(l *core.Ledger, r *rt) {
 		return
 	}
 	reqVal := selectRecvValue(sel, idx)
-	isReq := func(o sx.Origin) bool { return o.Kind == sx.KExtract && o.V == sel && reqVal != nil && o.Index == reqVal.(*ssa.Extract).Index }
+	isReq := func(o sx.Origin) bool {
+		return o.Kind == sx.KExtract && o.V == sel && reqVal != nil && o.Index == reqVal.(*ssa.Extract).Index
+	}
 	// successful write: the nil edge of the test on sendMsg's result
 	var okEdges []sx.Edge
 	var sendCalls []*ssa.Call
